@@ -4,7 +4,7 @@ import XrsVerif.Proofs.Proximity
   Proofs/ILProxPixel.lean -- step 2: one pixel of the generated `_process_proximity_line` (`pixelBody N`) is
   the model's `Prox.pixel` under the abstraction relation `LineRel` (three candidate phases + update).
 -/
-namespace XrsVerif.IL
+namespace XrsVerif.IL.Px
 open XrsVerif XrsVerif.Prox
 variable {F : Type} [Fl F]
 set_option linter.unusedSectionVars false
@@ -386,4 +386,4 @@ theorem pixel_refines {N : Names} (hN : N.WF) {c : Cfg} {emb : Nat → F} {tg : 
     rw [em]
     exact ⟨Or.inl c10, f10, r10⟩
 
-end XrsVerif.IL
+end XrsVerif.IL.Px
